@@ -16,6 +16,7 @@ import base64
 import contextlib
 import importlib
 import io
+import lzma
 import os
 import tempfile
 import zipfile
@@ -626,7 +627,7 @@ def gen_zip_cases(ctx):
 _SZ_COPY, _SZ_LZMA, _SZ_LZMA2, _SZ_BCJ, _SZ_AES = b"\x00", b"\x03\x01\x01", b"\x21", b"\x03\x03\x01\x03", B.AES_CODER
 
 
-def _lzma_ok(hdr, header_bytes):
+def _lzma_ok(hdr, header_bytes, unpacked_len=None):
     """model parameter `lzmaOk`: does the library's LZMA/LZMA2 decoder accept the bytes it is given when it is the
     first decoder applied to the stored header (coders are applied last-to-first)?  False when no LZMA coder is reached."""
     from sharepoint2text.parsing.extractors.util import sevenzip as S
@@ -635,7 +636,7 @@ def _lzma_ok(hdr, header_bytes):
     rd = S.SevenZipReader.__new__(S.SevenZipReader)
     try:
         if hdr[-1] == _SZ_LZMA:
-            rd._decompress_lzma(header_bytes, b"\x5d\0\0\x10\0", [len(header_bytes)])
+            rd._decompress_lzma(header_bytes, b"\x5d\0\0\x10\0", [len(header_bytes) if unpacked_len is None else unpacked_len])
         else:
             rd._decompress_lzma2(header_bytes, b"\x18")
         return True
@@ -661,8 +662,36 @@ def gen_sz_cases(ctx):
                           out=info, **kw)
         facts = {"hdr": [c.hex() for c in hdr] if hdr is not None else None,
                  "folders": [[c.hex() for c in f] for f in (folders if folders is not None else [[_SZ_COPY]])],
-                 "lzmaOk": _lzma_ok(hdr, info.get("header", b""))}
+                 "lzmaOk": _lzma_ok(hdr, info.get("stored_header", info.get("header", b"")), len(info.get("header", b"")))}
         cases.append(Case("7z", "7z", data, truth, key, why, facts))
+
+    # PHYSICAL LAYOUT OF THE HEADER x WHERE THE AES CODER SITS.  `7z a -p<pw>` (without -mhe=on) writes the header as an
+    # EncodedHeader that is only COMPRESSED (LZMA), the AES coder is in the data folders: the reader parses two streams
+    # infos one after the other (the header's own folder, then the main one), so whatever it concludes / caches / stops at
+    # while reading the first must not decide the second.  Every readable header wrapping x plain / AES data folders
+    # (one folder, AES in each of several folders).
+    def _raw_lzma1(h):
+        return lzma.compress(h, format=lzma.FORMAT_RAW, filters=[{"id": lzma.FILTER_LZMA1, "lc": 3, "lp": 0, "pb": 2, "dict_size": 1 << 20}])
+
+    def _raw_lzma2(h):
+        return lzma.compress(h, format=lzma.FORMAT_RAW, filters=[{"id": lzma.FILTER_LZMA2, "dict_size": 1 << 20}])
+
+    wrappings = [([_SZ_COPY], None, "copy-coded"), ([_SZ_LZMA], _raw_lzma1, "LZMA-compressed (7z default)"), ([_SZ_LZMA2], _raw_lzma2, "LZMA2-compressed"),
+                 ([_SZ_COPY, _SZ_LZMA], _raw_lzma1, "[copy, LZMA]-coded"), ([_SZ_BCJ, _SZ_COPY], None, "[bcj, copy]-coded")]
+    for hdr, pack, label in wrappings:
+        add(hdr, None, "plain", "7z.false-positive.encoded-header", f"copy-coded data, header {label}, not encrypted", header_pack=pack)
+        for a in (aes_ids if ctx.thorough else [_SZ_AES, rng.choice(aes_ids[1:])]):
+            for chain in ([a], [rng.choice([_SZ_LZMA2, _SZ_LZMA, _SZ_BCJ]), a]):
+                add(hdr, [chain], "encrypted", "7z.missed.aes-data-folder.encoded-header",
+                    f"header {label} (readable), data folder coders {[c.hex() for c in chain]}", header_pack=pack)
+        k = rng.choice([2, 3])
+        many = [(f"m{i}.txt", (f"{_TOKEN} member {i} " * (i + 1)).encode()) for i in range(k)]
+        add(hdr, [[_SZ_COPY]] * k, "plain", "7z.false-positive.encoded-header", f"{k} copy-coded folders, header {label}", fs=many, solid=False, header_pack=pack)
+        for pos in range(k):
+            folders = [[_SZ_COPY]] * k
+            folders[pos] = [rng.choice([_SZ_LZMA2, _SZ_BCJ]), rng.choice(aes_ids)]
+            add(hdr, folders, "encrypted", "7z.missed.aes-data-folder.encoded-header",
+                f"header {label} (readable), {k} folders, AES chain in folder {pos}, copy elsewhere", fs=many, solid=False, header_pack=pack)
 
     add(None, None, "plain", "7z.false-positive.copy", "copy coder, plain header")
     add([_SZ_COPY], None, "plain", "7z.false-positive.encoded-header-copy", "copy coder, header wrapped in a copy-coded EncodedHeader")
@@ -735,6 +764,20 @@ def gen_odf_cases(ctx):
         for man, truth, key, why, extra in _manifest_variants(rng, kind):
             cases.append(Case("odf", kind, B.odf_package(kind, _TOKEN, man, extra=extra), truth, key, f"{kind}: {why}"))
     cases.append(Case("odf", "odt", b"not a zip at all", None, "odf.synthetic", "not a ZIP"))
+    # THE SAME MANIFEST, OTHER BYTES: every legal physical serialisation (UTF-16 either byte order / with and without declaration,
+    # UTF-8 with BOM, no declaration, ISO-8859-1, US-ASCII, comments / PIs / line breaks) of encrypted and plain manifests — the
+    # tree the parser builds is the same, the byte string has nothing in common with the UTF-8 one (no ASCII name occurs in it)
+    M = B.odf_manifest
+    base = ["content.xml", "styles.xml", "meta.xml"]
+    for kind in (kinds if ctx.thorough else [kinds[ctx.seed % len(kinds)], kinds[(ctx.seed + 2) % len(kinds)]]):
+        srcs = [(M(kind, base), "plain", "odf.false-positive.plain.serialisation", "plain manifest"),
+                (M(kind, base + ["Pictures/encryption-data.png"]), "plain", "odf.false-positive.member-name.serialisation", "plain manifest listing 'Pictures/encryption-data.png'"),
+                (M(kind, base, prefix=rng.choice(["manifest", "m", ""]), enc_for=["content.xml"]), "encrypted", "odf.missed.encryption-data-element.serialisation", "content.xml carries encryption-data"),
+                (M(kind, base, enc_for=["styles.xml", "meta.xml"], enc_style=rng.choice(B.ODF_ENC_STYLES)), "encrypted", "odf.missed.encryption-data-element.serialisation", "two entries carry encryption-data")]
+        for man, truth, key, why in srcs:
+            for label, raw in B.xml_physical_variants(man):
+                extra = [("Pictures/encryption-data.png", b"\x89PNG\r\n")] if "member-name" in key else []
+                cases.append(Case("odf", kind, B.odf_package(kind, _TOKEN, raw, extra=extra), truth, key, f"{kind}: {why}; manifest serialised as {label}"))
     return cases
 
 
@@ -801,6 +844,13 @@ def gen_epub_cases(ctx):
     cases.append(Case("epub", "epub", B.epub_package(_TOKEN, extra=[("OEBPS/rights.xml", b"<r/>"), ("meta-inf/encryption.xml", E(1))]), "plain",
                       "epub.false-positive.other-path", "rights.xml / encryption.xml outside META-INF/"))
     cases.append(Case("epub", "epub", B.epub_package(_TOKEN, encryption_xml=E(1)[:-9]), None, "epub.synthetic", "encryption.xml not well-formed"))
+    # the same encryption.xml, other bytes (see gen_odf_cases)
+    for src, truth, key, why in ((E(0), "plain", "epub.false-positive.empty-encryption-xml.serialisation", "encryption.xml without EncryptedData"),
+                                 (E(1, local="EncryptedKey"), "plain", "epub.false-positive.other-element.serialisation", "only EncryptedKey elements"),
+                                 (E(2, depth=rng.choice([0, 1]), prefix=rng.choice(["enc", ""])), "encrypted", "epub.missed.encrypted-data.serialisation", "two EncryptedData"),
+                                 (B.epub_encryption_entries([ent(font[0]), ent(rng.choice(real[:-1]), 1)]), "encrypted", "epub.missed.encrypted-data.serialisation", "font obfuscation + DRM entry")):
+        for label, raw in B.xml_physical_variants(src):
+            cases.append(Case("epub", "epub", B.epub_package(_TOKEN, encryption_xml=raw), truth, key, f"{why}; encryption.xml serialised as {label}"))
     one = f'<?xml version="1.0"?><enc:EncryptedData xmlns:enc="{B.XMLENC}"/>'.encode()
     cases.append(Case("epub", "epub", B.epub_package(_TOKEN, encryption_xml=one), None, "epub.synthetic", "EncryptedData is the root element itself"))
     return cases
@@ -1378,6 +1428,22 @@ def _validate_builders():
         il = zf.infolist()
         if [(i.filename, i.flag_bits & 1, i.compress_type) for i in il] != [("a.txt", 1, 0), ("d/", 0, 0), ("b", 0, 9)]:
             broken.append(Broken("correspondence", "builder:zip", "zipfile sees other flags / methods"))
+    # every physical variant of an XML description is the SAME document for the XML parser (expat via xml.etree, no library code)
+    import xml.etree.ElementTree as PET
+
+    def canon(e):
+        return (e.tag, sorted(e.attrib.items()), (e.text or "").strip(), [canon(c) for c in e])
+
+    for src in (B.odf_manifest("odt", ["content.xml", "a b.xml"], enc_for=["content.xml"]), B.epub_encryption_xml(2, depth=1)):
+        want = canon(PET.fromstring(src))
+        for label, raw in B.xml_physical_variants(src):
+            try:
+                if canon(PET.fromstring(raw)) != want:
+                    broken.append(Broken("correspondence", "builder:xml-variant", f"{label}: parses to another tree"))
+            except Exception as e:
+                broken.append(Broken("correspondence", "builder:xml-variant", f"{label}: {e!r}"))
+            if raw == src:
+                broken.append(Broken("correspondence", "builder:xml-variant", f"{label}: identical bytes"))
     return broken
 
 
